@@ -681,10 +681,11 @@ func VerifC02PassthroughZero() {
 		return map[string]bool{"src": true, "other": true}, nil
 	}, map[string]bool{"src": true, "other": true}))
 	wf.AddPassthroughNode("p").AddInput("src").AddDependency("other")
-	wf.AddLambdaNode("use", InvokableLambda(func(ctx context.Context, n int) (int, error) {
+	// (input and output types of the successor differ as well: the pass-through may take its type from either side)
+	wf.AddLambdaNode("use", InvokableLambda(func(ctx context.Context, n int) (map[string]any, error) {
 		runs++
 		got = n
-		return n, nil
+		return map[string]any{"n": n}, nil
 	})).AddInput("p")
 	// a node with differing input and output types that is triggered by a dependency only (no data at all)
 	depRuns, depGot := 0, -1
@@ -707,7 +708,8 @@ func VerifC02PassthroughZero() {
 	} else {
 		res, rerr = r.Invoke(ctx, 1)
 	}
-	out, _ := res["use"].(int)
+	um, _ := res["use"].(map[string]any)
+	out, _ := um["n"].(int)
 	vassert(rerr != nil || (depRuns == 1 && depGot == 0 && res["dep"] == "d"), "a node triggered by a dependency only runs once on the zero value of its input type")
 	vassert(rerr == nil, "the run succeeds whether or not the pass-through's data predecessor is skipped")
 	vassert(runs == 1, "the successor of the pass-through runs exactly once")
